@@ -31,10 +31,57 @@ def _stmt_fields(ctx, ci: ClassInfo, stmt) -> set[str]:
     return out
 
 
+def _enclosing_iters(par, node, stop):
+    """(target, iter) of the loops / comprehension generators around node, innermost first"""
+    out = []
+    x = node
+    prev = node
+    while x is not None and x is not stop:
+        prev, x = x, par.get(x)
+        if isinstance(x, ast.For) and prev is not x.iter:
+            out.append((x.target, x.iter))
+        elif isinstance(x, ast.comprehension):
+            # an `if` clause (or nested iter) of generator k is inside generators 0..k
+            comp = par.get(x)
+            k = comp.generators.index(x)
+            gens = comp.generators[: k + 1] if prev is not x.iter else comp.generators[:k]
+            out += [(g.target, g.iter) for g in reversed(gens)]
+            prev, x = comp, comp
+        elif isinstance(x, (ast.ListComp, ast.GeneratorExp, ast.SetComp, ast.DictComp)) and not isinstance(prev, ast.comprehension) and prev is not x:
+            out += [(g.target, g.iter) for g in reversed(x.generators)]
+    return out
+
+
+def _random_effect(par, cmp_node):
+    """For a comparison with random(): ('Sub'|'Add'|None) applied to the count when the comparison is true."""
+    p = par.get(cmp_node)
+    if isinstance(p, ast.If) and p.test is cmp_node:
+        ops = [type(a.op).__name__ for b in p.body for a in ast.walk(b) if isinstance(a, ast.AugAssign)]
+        return ops[0] if len(ops) == 1 else None
+    if isinstance(p, ast.IfExp) and p.test is cmp_node:
+        for br, sign in ((p.body, 1), (p.orelse, -1)):
+            other = p.orelse if br is p.body else p.body
+            if isinstance(br, ast.BinOp) and isinstance(br.op, (ast.Add, ast.Sub)) and src(br.left) == src(other) and src(br.right) == "1":
+                op = "Add" if isinstance(br.op, ast.Add) else "Sub"
+                return op if sign == 1 else ("neg:" + op)
+        return None
+    if isinstance(p, ast.comprehension) and cmp_node in p.ifs:
+        comp = par.get(p)
+        call = par.get(comp)
+        if isinstance(call, ast.Call) and src(call.func) in ("sum", "len") and (src(comp.elt) == "1" or src(call.func) == "len"):
+            outer = par.get(call)
+            if isinstance(outer, ast.BinOp) and outer.right is call and isinstance(outer.op, (ast.Add, ast.Sub)):
+                return "Add" if isinstance(outer.op, ast.Add) else "Sub"
+    return None
+
+
 def detector_stages(ctx, res: Result, det: ClassInfo) -> None:
-    go = det.methods.get("_get_output")
-    if go is None:
+    from ..inline import with_helpers
+
+    go0 = det.methods.get("_get_output")
+    if go0 is None:
         raise AnalysisError("Detector._get_output not found")
+    go = with_helpers(ctx, go0)
     body = go.node.body
     order = {}
     for i, s in enumerate(body):
@@ -44,11 +91,12 @@ def detector_stages(ctx, res: Result, det: ClassInfo) -> None:
         for f in ("efficiency", "p_dark", "photon_counting"):
             if f in fl and f not in order:
                 order[f] = i
-    if set(order) != {"efficiency", "p_dark", "photon_counting"}:
-        raise AnalysisError(f"Detector._get_output: stages not identified ({order})")
-    good = order["efficiency"] < order["p_dark"] < order["photon_counting"]
-    res.add(good, "I-detector-stage-order", "Detector._get_output", go.site(), go.qualname, "efficiency loss, then dark counts, then threshold",
-            f"detector stages run in the order {sorted(order, key=order.get)}: e.g. dark counts would be subject to efficiency loss, or counts above one survive thresholding", construct=str(sorted(order, key=order.get)))
+    if set(order) != {"efficiency", "p_dark", "photon_counting"} or len(set(order.values())) != 3:
+        res.frozen(False, "I-detector-stage-order", "Detector._get_output", go.site(), go.qualname, "", f"the three detector stages are not identified as separate statements ({order})", construct=str(order))
+    else:
+        good = order["efficiency"] < order["p_dark"] < order["photon_counting"]
+        res.add(good, "I-detector-stage-order", "Detector._get_output", go.site(), go.qualname, "efficiency loss, then dark counts, then threshold",
+                f"detector stages run in the order {sorted(order, key=order.get)}: e.g. dark counts would be subject to efficiency loss, or counts above one survive thresholding", construct=str(sorted(order, key=order.get)))
     # shortcut only when the detector is perfect
     sc = [s for s in body if isinstance(s, ast.If) and any(isinstance(b, ast.Return) for b in s.body)]
     if sc:
@@ -58,59 +106,77 @@ def detector_stages(ctx, res: Result, det: ClassInfo) -> None:
                 f"the pass-through shortcut is taken under `{src(sc[0].test)}`", construct=src(sc[0].test))
     # polarities (searched in _get_output and its self-callees)
     fns = [go.node] + [det.methods[n.attr].node for n in ast.walk(go.node) if isinstance(n, ast.Attribute) and isinstance(n.value, ast.Name) and n.value.id == "self" and n.attr in det.methods]
-    eff = dark = thr = None
-    for fn in fns:
-        for n in ast.walk(fn):
-            if isinstance(n, ast.If) and isinstance(n.test, ast.Compare) and len(n.test.ops) == 1:
-                l, r = src(n.test.left), src(n.test.comparators[0])
-                op = type(n.test.ops[0]).__name__
-                if "random()" in (l, r) or "random.random()" in (l, r):
-                    other = r if "random" in l else l
-                    rnd_left = "random" in l
-                    if not rnd_left:
-                        op = {"Gt": "Lt", "Lt": "Gt", "GtE": "LtE", "LtE": "GtE"}.get(op, op)
-                    incs = [a for b in n.body for a in ast.walk(b) if isinstance(a, ast.AugAssign)]
-                    if "efficiency" in other:
-                        eff = (op, [type(a.op).__name__ for a in incs], n)
-                    if "p_dark" in other:
-                        dark = (op, [type(a.op).__name__ for a in incs], n)
-            if isinstance(n, ast.IfExp) and isinstance(n.test, ast.Compare):
-                thr = (src(n.test).replace(" ", ""), src(n.body), src(n.orelse), n)
-            if isinstance(n, ast.Call) and src(n.func) == "min" and len(n.args) == 2 and "1" in [src(a) for a in n.args]:
-                thr = ("min", "", "", n)
-    if eff is None or dark is None or thr is None:
-        raise AnalysisError("Detector._get_output: efficiency / dark-count / threshold comparisons not recognised")
-    res.add(eff[0] in ("Gt", "GtE") and eff[1] == ["Sub"], "E-detector-polarity", "efficiency", go.site(eff[2]), go.qualname, "a photon is removed iff random() > efficiency",
-            f"efficiency stage: photon removed when random() {eff[0]} efficiency (ops {eff[1]}): detection probability is not the efficiency", construct=src(eff[2].test))
-    res.add(dark[0] in ("Lt", "LtE") and dark[1] == ["Add"], "E-detector-polarity", "p_dark", go.site(dark[2]), go.qualname, "a dark count is added iff random() < p_dark",
-            f"dark-count stage: count added when random() {dark[0]} p_dark (ops {dark[1]})", construct=src(dark[2].test))
-    okt = thr[0] == "min" or (thr[0] in ("count>=1", "count>0", "1<=count", "0<count") and thr[1] == "1" and thr[2] == "0") or (thr[0] in ("count<1", "count==0", "count<=0") and thr[1] == "0" and thr[2] == "1")
-    res.add(okt, "E-detector-polarity", "threshold", go.site(thr[3]), go.qualname, "threshold detection caps every count at one", f"threshold stage maps counts with `{src(thr[3])}`", construct=src(thr[3]))
-    # per-photon independence: the efficiency draw sits in a loop over range(n) nested in the loop over modes
     par = {}
+    owner = {}
     for fn in fns:
         for n in ast.walk(fn):
             for c in ast.iter_child_nodes(n):
                 par[c] = n
-    chain = []
-    p = eff[2]
-    while p in par:
-        p = par[p]
-        if isinstance(p, ast.For):
-            chain.append(p)
-    okp = len(chain) >= 2 and src(chain[0].iter).startswith("range(") and "enumerate(" in src(chain[1].iter)
-    res.add(okp, "I-detector-per-photon", "efficiency", go.site(eff[2]), go.qualname, "one independent draw per photon (loop over range(n) inside the loop over modes)",
-            "efficiency is not applied with one independent draw per photon", construct=";".join(src(c.iter) for c in chain))
-    chain = []
-    p = dark[2]
-    while p in par:
-        p = par[p]
-        if isinstance(p, ast.For):
-            chain.append(p)
-    res.add(len(chain) == 1, "I-detector-per-photon", "p_dark", go.site(dark[2]), go.qualname, "at most one dark count per mode (single loop over modes)", "dark counts are not drawn exactly once per mode", construct=";".join(src(c.iter) for c in chain))
+                owner[c] = fn
+    eff = dark = thr = None
+    for fn in fns:
+        for n in ast.walk(fn):
+            if isinstance(n, ast.Compare) and len(n.ops) == 1:
+                l, r = src(n.left), src(n.comparators[0])
+                op = type(n.ops[0]).__name__
+                if "random()" in (l, r) or "random.random()" in (l, r):
+                    other = r if "random" in l else l
+                    if "random" not in l:
+                        op = {"Gt": "Lt", "Lt": "Gt", "GtE": "LtE", "LtE": "GtE"}.get(op, op)
+                    effect = _random_effect(par, n)
+                    if effect and effect.startswith("neg:"):
+                        effect = effect[4:]
+                        op = {"Gt": "LtE", "Lt": "GtE", "GtE": "Lt", "LtE": "Gt"}.get(op, op)
+                    if "efficiency" in other:
+                        eff = (op, effect, n, fn)
+                    if "p_dark" in other:
+                        dark = (op, effect, n, fn)
+            if isinstance(n, ast.IfExp) and isinstance(n.test, ast.Compare) and "random" not in src(n.test):
+                thr = (n, )
+            if isinstance(n, ast.Call) and src(n.func) == "min" and len(n.args) == 2 and "1" in [src(a) for a in n.args]:
+                thr = (n, )
+    for nm, found, want_ops, want_eff, msg_ok, what in (
+        ("efficiency", eff, ("Gt", "GtE"), "Sub", "a photon is removed iff random() > efficiency", "photon removed"),
+        ("p_dark", dark, ("Lt", "LtE"), "Add", "a dark count is added iff random() < p_dark", "count added"),
+    ):
+        if found is None or found[1] is None:
+            res.frozen(False, "E-detector-polarity", nm, go.site(found[2]) if found else go.site(), go.qualname, "", f"{nm} stage: comparison of random() with {nm} and its effect on the count not recognised", construct=src(found[2]) if found else "")
+        else:
+            res.add(found[0] in want_ops and found[1] == want_eff, "E-detector-polarity", nm, go.site(found[2]), go.qualname, msg_ok,
+                    f"{nm} stage: {what} ({found[1]}) when random() {found[0]} {nm}: " + ("detection probability is not the efficiency" if nm == "efficiency" else "dark-count probability is not p_dark"), construct=src(found[2]))
+    if thr is None:
+        res.frozen(False, "E-detector-polarity", "threshold", go.site(), go.qualname, "", "threshold stage (min(n, 1) / 1 if n >= 1 else 0) not recognised", construct="")
+    else:
+        n = thr[0]
+        if isinstance(n, ast.Call):
+            okt = True
+        else:
+            c = n.test
+            v = src(c.left) if not isinstance(c.left, ast.Constant) else src(c.comparators[0])
+            t = src(c).replace(" ", "").replace(v, "count")
+            okt = (t in ("count>=1", "count>0", "1<=count", "0<count", "count!=0") and src(n.body) == "1" and src(n.orelse) == "0") or (t in ("count<1", "count==0", "count<=0", "1>count", "0==count") and src(n.body) == "0" and src(n.orelse) == "1")
+            okt = okt or (t in ("count>1", "count>=2", "1<count", "count>=1") and src(n.body) == "1" and src(n.orelse) == v) or (t in ("count<=1", "count<2", "count<1", "1>=count") and src(n.body) == v and src(n.orelse) == "1")
+        res.add(okt, "E-detector-polarity", "threshold", go.site(n), go.qualname, "threshold detection caps every count at one", f"threshold stage maps counts with `{src(n)}`", construct=src(n))
+    # per-photon independence: the efficiency draw is iterated over range(n) inside the iteration over modes
+    if eff is not None:
+        chain = _enclosing_iters(par, eff[2], eff[3])
+        inner_ok = len(chain) >= 2 and src(chain[0][1]).startswith("range(")
+        if inner_ok:
+            rng_arg = chain[0][1].args[-1] if isinstance(chain[0][1], ast.Call) and chain[0][1].args else None
+            outer_names = {x.id for x in ast.walk(chain[1][0]) if isinstance(x, ast.Name)}
+            inner_ok = rng_arg is not None and bool({x.id for x in ast.walk(rng_arg) if isinstance(x, ast.Name)} & outer_names)
+        res.add(inner_ok, "I-detector-per-photon", "efficiency", go.site(eff[2]), go.qualname, "one independent draw per photon (iteration over range(n) inside the iteration over modes)",
+                "efficiency is not applied with one independent draw per photon", construct=";".join(src(c[1]) for c in chain))
+    if dark is not None:
+        chain = _enclosing_iters(par, dark[2], dark[3])
+        res.add(len(chain) == 1, "I-detector-per-photon", "p_dark", go.site(dark[2]), go.qualname, "at most one dark count per mode (single iteration over modes)", "dark counts are not drawn exactly once per mode", construct=";".join(src(c[1]) for c in chain))
     # output starts from a copy of the input
-    ini = [a for a in body if isinstance(a, ast.Assign) and src(a.targets[0]) == "output"]
-    res.add(bool(ini) and src(ini[0].value) in ("list(in_state)", "in_state.s", "copy(in_state.s)"), "I-detector-copy", "output", go.site(), go.qualname, "works on a copy of the sampled state", "detector works on the sampled state object itself", construct=src(ini[0]) if ini else "")
+    ini = [a for a in ast.walk(go.node) if isinstance(a, ast.Assign) and src(a.targets[0]) == "output"]
+    if not ini:
+        res.frozen(False, "I-detector-copy", "output", go.site(), go.qualname, "", "working list `output` not recognised", construct="")
+    else:
+        alias = [a for a in ini if isinstance(a.value, ast.Name) and a.value.id in go.params() or src(a.value).endswith("__s")]
+        res.add(not alias, "I-detector-copy", "output", go.site(ini[0]), go.qualname, "works on a copy of the sampled state", "detector works on the sampled state object itself", construct=src(alias[0]) if alias else "")
 
 
 def strip_derivation(ctx, fi: FuncInfo, expr, D: str, depth=0) -> str:
